@@ -72,6 +72,9 @@ func runPacer(t *simrt.Tape, keep bool) simrt.Outcome {
 	var viol *simrt.Violation
 	fail := func(class, kind string, params map[string]float64, format string, args ...any) {
 		if viol == nil {
+			for k, v := range params {
+				params[k] = finite(v) // the replay file is JSON
+			}
 			viol = &simrt.Violation{Prop: "C01", Class: class, Msg: fmt.Sprintf(format, args...), Params: params, Tags: map[string]string{"pacer": kind}}
 			log.Addf("VIOLATION %s %s", class, viol.Msg)
 		}
@@ -353,7 +356,7 @@ func runPacer(t *simrt.Tape, keep bool) simrt.Outcome {
 			ahead = a == 1
 		}
 		if ahead {
-			sch.params["rate_now_per_s"] = sch.rate(now)
+			sch.params["rate_now_per_s"] = finite(sch.rate(now))
 			pr := copyParams(sch.params, "ahead", float64(hits)-S)
 			pr["hits"] = float64(hits)
 			fail("C01.a-ahead", sch.kind, pr, "%s pacer: %d hits released by t=%v but the schedule is %.6f (more than one ahead)", sch.kind, hits, now, S)
@@ -368,7 +371,7 @@ func runPacer(t *simrt.Tape, keep bool) simrt.Outcome {
 			Sq := sch.S(now - back)
 			// the count is lowest, relative to the schedule, just before a release: hits-1 released, this one due
 			if float64(hits-1) < Sq-1-eps(Sq) {
-				sch.params["rate_now_per_s"] = sch.rate(now)
+				sch.params["rate_now_per_s"] = finite(sch.rate(now))
 				pr := copyParams(sch.params, "behind", Sq-float64(hits-1))
 				fail("C01.c-behind", sch.kind, pr, "%s pacer: its wait was honoured exactly, yet at t=%v, the instant hit %d is released, %d hits are out and the schedule (less 1ns per hit) is %.6f: more than one hit behind", sch.kind, now, hits, hits-1, Sq)
 				break
@@ -391,6 +394,11 @@ func runPacer(t *simrt.Tape, keep bool) simrt.Outcome {
 			stats["probe.rate-checked"]++
 		}()
 	}
+	clean := map[string]float64{}
+	for k, v := range sch.params {
+		clean[k] = finite(v)
+	}
+	sample["params"] = clean
 	sample["hits"] = hits - startHits
 	sample["virtual_time"] = now.String()
 	sample["stall_percent"] = stallP
@@ -412,4 +420,17 @@ func copyParams(p map[string]float64, k string, v float64) map[string]float64 {
 		c[a] = b
 	}
 	return c
+}
+
+// finite clamps a value that goes into a JSON document (JSON has no infinities).
+func finite(x float64) float64 {
+	switch {
+	case math.IsNaN(x):
+		return 0
+	case x > math.MaxFloat64:
+		return math.MaxFloat64
+	case x < -math.MaxFloat64:
+		return -math.MaxFloat64
+	}
+	return x
 }
